@@ -208,6 +208,8 @@ int main(int argc, char **argv)
 		else if (!strcmp(op, "ilog2")) printf("%d\n", a ? ilog2((uint32_t)a) : 31 - clz(0));
 		else if (!strcmp(op, "const_pop")) printf("%d\n", rt_const_pop(a));
 		else if (!strcmp(op, "const_lssb")) printf("%d\n", rt_const_lssb(a));
+		/* the macro's value in its OWN expression type (no conversion to int): sign test and halving */
+		else if (!strcmp(op, "const_lssb_sign")) { uint64_t v_ = a; printf("%d %lld\n", const_lssb(v_) < 0 ? 1 : 0, (long long)(const_lssb(v_) / 2)); }
 		else if (!strcmp(op, "rand31")) { uint32_t s = (uint32_t)a; uint32_t r = rand31_r(&s); printf("%u %u\n", r, s); }
 		else if (!strcmp(op, "rotenc")) {
 			rotenc_t r; memset(&r, 0, sizeof r);
